@@ -169,5 +169,17 @@ def run(ctx):
            'rejected resubmit entries fail with the offline-policy error', 'sa-rejected', loc=sess.loc())
     app = [m for m in prims.mutations(sess) if m.method == 'append' and prims.self_field(m.path) == 'user_operation_queue']
     ctx.ob(len(app) == 1 and show(app[0].cs.arg(1)) == 'retained', 'retained resubmit entries move to the user queue', 'sa-retained', loc=sess.loc())
+    # the DUP reset iterates `retained` *before* that container is moved into the user queue (append drains its source)
+    from ..mir import happens_before
+    clr = []
+    for cv in F.all_fns():
+        if norm(cv.f.get('parent') or '') == norm(sess.path) and any(show(c.arg(2)) == 'False' for c in cv.calls('ProtocolState::set_publish_duplicate_flag')):
+            clr += prims.closure_hosts(sess, cv)
+    src = [c for c in sess.calls('VecDeque::iter') if app and show(c.arg(0)) == show(app[0].cs.arg(1))]
+    okc = len(clr) == 1 and len(src) == 1 and src[0].bb in ([clr[0].bb] + [b for b in range(sess.n) if sess.dominates(b, clr[0].bb)]) and len(app) == 1 \
+        and sess.dominates(clr[0].bb, app[0].bb) and clr[0].bb != app[0].bb and app[0].bb not in [] and clr[0].bb not in sess.reach(list(sess.graph()[0][app[0].bb]))
+    ctx.ob(okc, 'the DUP flag of every retained entry is cleared before the retained container is moved into the user queue (VecDeque::append empties its source)', 'sa-dup-before-move', loc=sess.loc())
+    uad = prims.use_after_drain(sess)
+    ctx.ob(not uad, 'no local queue is read after it was drained in session handling %s' % [(n, short(d.fn), short(u.fn)) for n, d, u in uad], 'sa-use-after-drain', loc=sess.loc())
     sort = sess.calls('protocol::sort_operation_deque')
     ctx.ob(len(sort) == 2, 'both queues are re-sorted after the shuffle', 'sa-sort', loc=sess.loc())
